@@ -633,7 +633,7 @@ func (ex *executor) callStep(idx int, st *Step) {
 		return
 	}
 	ex.res.Stats.ByStatus[statusClass(last.Status)]++
-	ex.res.Stats.NonTrivial["C14|"+class+faultClass(last)+fmt.Sprintf(" real=%d", last.RealStatus/100)]++
+	ex.res.Stats.NT("C14|" + class + faultClass(last) + fmt.Sprintf(" real=%d", last.RealStatus/100))
 	if ex.bk != nil {
 		for _, f := range ex.bk.Fired {
 			ex.res.Stats.FaultsFired["backend:"+f.Kind]++
